@@ -328,6 +328,9 @@ def load_model(model_folder: str, model_name: str, compiler_options: Dict[str, s
                 raise InvalidCacheError("Cache generated for incompatible CasADi version")
             else:
                 raise
+        except (pickle.UnpicklingError, AttributeError, EOFError, ImportError, IndexError) as e:
+            # E.g. a cache file whose write was interrupted, or is still in progress
+            raise InvalidCacheError("Cache file is incomplete or damaged") from e
 
         if db["version"] != __version__:
             raise InvalidCacheError("Cache generated for a different version of pymoca")
